@@ -36,7 +36,7 @@ def simp_cst_propagation(e_s, expr):
             elif op_name == '*':
                 out = mod_size2uint[int1.size](int(int1) * int(int2))
             elif op_name == '**':
-                out = mod_size2uint[int1.size](int(int1) ** int(int2))
+                out = pow(int(int1), int(int2), 1 << int1.size)
             elif op_name == '^':
                 out = mod_size2uint[int1.size](int(int1) ^ int(int2))
             elif op_name == '&':
@@ -301,7 +301,7 @@ def simp_cst_propagation(e_s, expr):
     # ((A & mask) >> shift) with mask < 2**shift => 0
     if op_name == ">>" and args[1].is_int() and args[0].is_op("&"):
         if (args[0].args[1].is_int() and
-            2 ** int(args[1]) > int(args[0].args[1])):
+            int(args[0].args[1]) >> int(args[1]) == 0):
             return ExprInt(0, args[0].size)
 
     # parity(int) => int
@@ -1702,12 +1702,14 @@ def simp_add_multiple(_, expr):
         if arg.is_op('*') and arg.args[1].is_int():
             base_expr, factor = arg.args
             operands[base_expr] = operands.get(base_expr, 0) + int(factor)
-        elif arg.is_op('<<') and arg.args[1].is_int():
+        elif (arg.is_op('<<') and arg.args[1].is_int() and
+              int(arg.args[1]) < expr.size):
             base_expr, factor = arg.args
             operands[base_expr] = operands.get(base_expr, 0) + 2 ** int(factor)
         elif arg.is_op("-"):
             arg = arg.args[0]
-            if arg.is_op('<<') and arg.args[1].is_int():
+            if (arg.is_op('<<') and arg.args[1].is_int() and
+                int(arg.args[1]) < expr.size):
                 base_expr, factor = arg.args
                 operands[base_expr] = operands.get(base_expr, 0) - (2 ** int(factor))
             else:
